@@ -828,6 +828,11 @@ func (v *fnVC) goStmt(i *ssa.Go, st *State) {
 			}
 		}
 	}
+	// ghost count of goroutines started (declared as `ghost var goroutinesSpawned int`)
+	if _, ok := v.w.specs.Ghosts["goroutinesSpawned"]; ok {
+		cur := st.get("G$goroutinesSpawned", sI64)
+		st.set("G$goroutinesSpawned", v.e.define("spawned", mk(sapp("bvadd", cur.S, bvLit(1, 64)), sI64)))
+	}
 	v.notes = append(v.notes, "go statement at "+v.pos(i.Pos())+": spawned call not executed in the proof (no interleaving semantics; what the goroutine writes is not part of this function's post-state)")
 }
 
